@@ -458,6 +458,8 @@ def wrap_decorators(ctx) -> None:
 
 
 def run(ctx) -> None:
+    # the order in which a walk meets sibling branches is what positions are derived from (persistent states, copied wiring)
+    shared.r_lifo(ctx, ctx.prog.functions([m for m in ctx.prog.modules if m.startswith(('forml.flow._graph', 'forml.flow._suite', 'forml.flow._code'))]))
     from . import C12
     operators(ctx)
     wrap_label_order(ctx)
